@@ -41,7 +41,7 @@ def run(index, tier="quick", seed=0) -> Result:
     from ..windparity import winding_parity
     fnw = index.cls("Polygon").lookup("is_inside")
     try:
-        wp, wtxt = winding_parity(fnw.node, fnw.params[1] if len(fnw.params) > 1 else "points")
+        wp, wtxt = winding_parity(fnw.node, fnw.params[1] if len(fnw.params) > 1 else "points", index=index, cls=index.cls("Polygon"))
         if wp == "odd":
             res.ok("IN-8", "Polygon.is_inside:winding-parity", sample={"per_edge_term": wtxt[:300]})
         else:
@@ -70,7 +70,11 @@ def run(index, tier="quick", seed=0) -> Result:
     r = it.run_entry(fn, P)
     rot_pts = [e for e in r["events"] if e.type == "dotcall" and e.func is fn and e.left is not None and "batch" in e.left.tags
                and e.right is not None and "orth" in e.right.tags]
-    aligned = [e for e in r["events"] if e.type == "enter" and not e.entry and e.callee.name == "_align_points_by_normal"]
+    # the vertices were brought into the plane frame by a forward product with the same kind of rotation (wherever that
+    # product is written: _align_points_by_normal, a method of the class, inline)
+    aligned = [e for e in r["events"] if e.type == "enter" and not e.entry and e.callee.name == "_align_points_by_normal"] or \
+        [e for e in r["events"] if e.type == "dotcall" and e.left is not None and "world3" in e.left.tags and e.right is not None
+         and "orth" in e.right.tags and "transposed" in e.right.tags]
     # np.dot(points, M) applies M^T to every point: the forward rotation R needs M = R.T
     if rot_pts and all("transposed" in e.right.tags for e in rot_pts) and aligned:
         res.ok("IN-7", "Polygon.is_inside:rotation")
